@@ -84,6 +84,49 @@ mod imp {
         }
     }
 
+    /// contract tie of Model/TypedArray.v: random operation sequences on the real AelysArray / AelysVec
+    /// `QArr <K> <n> <ops>\t<observations>` ; ops: g<i> s<i>:<w> p<w> o l ; observations: one `a,b,..` group per op
+    pub fn arrays(seed: u64, count: u64) {
+        use aelys_bytecode::object::{AelysArray, AelysVec};
+        let mut rng = Rng::new(seed ^ 0xA77A);
+        let pool: Vec<u64> = vec![
+            Value::int(0).raw_bits(), Value::int(7).raw_bits(), Value::int(-1).raw_bits(), Value::int((1 << 47) - 1).raw_bits(),
+            Value::int(-(1 << 47)).raw_bits(), 0xFFF9_0000_0000_0005,
+            Value::float(0.0).raw_bits(), Value::float(-0.0).raw_bits(), Value::float(2.5).raw_bits(), Value::float(f64::NAN).raw_bits(),
+            0x7FF0_0000_0000_0001, 0xFFFE_0000_0000_0123, Value::float(f64::INFINITY).raw_bits(), 1,
+            Value::bool(true).raw_bits(), Value::bool(false).raw_bits(), 0xFFFA_0000_0000_0003, Value::null().raw_bits(),
+            Value::ptr(5).raw_bits(), Value::nested_fn_marker(2).raw_bits(),
+        ];
+        for _ in 0..count {
+            let kind = rng.below(4);
+            let is_vec = rng.chance(1, 2);
+            let n = if is_vec { 0 } else { rng.below(5) as usize };
+            let kname = ["KI", "KF", "KB", "KO"][kind as usize];
+            let mut arr = match kind { 0 => AelysArray::new_ints(n), 1 => AelysArray::new_floats(n), 2 => AelysArray::new_bools(n), _ => AelysArray::new_objects(n) };
+            let mut vec = match kind { 0 => AelysVec::new_ints(), 1 => AelysVec::new_floats(), 2 => AelysVec::new_bools(), _ => AelysVec::new_objects() };
+            let mut ops: Vec<String> = Vec::new();
+            let mut obs: Vec<String> = Vec::new();
+            for _ in 0..(4 + rng.below(12)) {
+                let w = if rng.chance(4, 5) { *rng.pick(&pool) } else {
+                    match rng.below(3) { 0 => Value::int(rng.next_u64() as i64).raw_bits(), 1 => Value::float(f64::from_bits(rng.next_u64())).raw_bits(), _ => rng.next_u64() }
+                };
+                let i = rng.below(6) as usize;
+                match rng.below(if is_vec { 5 } else { 3 }) {
+                    0 => { ops.push(format!("g{}", i));
+                           let r = if is_vec { vec.get(i) } else { arr.get(i) };
+                           obs.push(match r { Some(v) => format!("1,{}", v.raw_bits()), None => "0".into() }); }
+                    1 => { ops.push(format!("s{}:{}", i, w));
+                           let r = if is_vec { vec.set(i, Value::from_raw(w)) } else { arr.set(i, Value::from_raw(w)) };
+                           obs.push(format!("{}", r as u8)); }
+                    2 => { ops.push("l".into()); obs.push(format!("{}", if is_vec { vec.len() } else { arr.len() })); }
+                    3 => { ops.push(format!("p{}", w)); obs.push(format!("{}", vec.push(Value::from_raw(w)) as u8)); }
+                    _ => { ops.push("o".into()); obs.push(match vec.pop() { Some(v) => format!("1,{}", v.raw_bits()), None => "0".into() }); }
+                }
+            }
+            println!("QArr {} {} {}\t{}", kname, n, ops.join(" "), obs.join(" "));
+        }
+    }
+
     /// static opcode histogram of the programs in FILE compiled at -O0 (println lines dropped: the
     /// compile-only pipeline does not know the stdlib globals); cache words after call opcodes skipped
     pub fn opcodes(file: &str) {
@@ -148,6 +191,8 @@ fn main() {
         imp::select();
     } else if let Some(f) = hxlib::arg("--run") {
         imp::run(&f);
+    } else if hxlib::flag("--arrays") {
+        imp::arrays(hxlib::arg_u64("--seed", 0), hxlib::arg_u64("--count", 2000));
     } else if let Some(f) = hxlib::arg("--opcodes") {
         imp::opcodes(&f);
     } else {
